@@ -302,15 +302,9 @@ func (f *File) enterWriteMode() error {
 			}
 		}
 
-		if f.flags.Append {
-			// Truncating does not move the cursor
-			if _, err := f.writeBuf.Seek(0, io.SeekEnd); err != nil {
-				return err
-			}
-		} else {
-			if _, err := f.writeBuf.Seek(pos, io.SeekStart); err != nil {
-				return err
-			}
+		// O_APPEND is applied by every write, not here: reads and seeks keep their position
+		if _, err := f.writeBuf.Seek(pos, io.SeekStart); err != nil {
+			return err
 		}
 	}
 
@@ -654,6 +648,13 @@ func (f *File) Write(p []byte) (n int, err error) {
 		return -1, err
 	}
 
+	if f.flags.Append && len(p) > 0 {
+		// With O_APPEND every write goes to the end, wherever the cursor was moved to
+		if _, err := f.writeBuf.Seek(0, io.SeekEnd); err != nil {
+			return -1, err
+		}
+	}
+
 	n, err = f.writeBuf.Write(p)
 	if err != nil {
 		return -1, err
@@ -697,22 +698,7 @@ func (f *File) WriteString(s string) (ret int, err error) {
 		"s":    len(s),
 	})
 
-	if f.info.IsDir() {
-		return -1, config.ErrIsDirectory
-	}
-
-	if !f.flags.Write {
-		return -1, os.ErrPermission
-	}
-
-	f.ioLock.Lock()
-	defer f.ioLock.Unlock()
-
-	if err := f.enterWriteMode(); err != nil {
-		return -1, err
-	}
-
-	return f.writeBuf.Write([]byte(s))
+	return f.Write([]byte(s))
 }
 
 func (f *File) Truncate(size int64) error {
